@@ -568,6 +568,7 @@ fn emit_fn(cx: &mut Ctx, specs: &mut Specs, em: &mut Emitter, ex: &Extract, file
     let mut_self = recv.as_ref().map(|r| r.reference.is_none() && r.mutability.is_some()).unwrap_or(false);
     let mut rw = Rw::new(cx, lifted, binders, name.clone());
     rw.self_to_this = (mut_self && !lifted) || (fd.tr.is_some() && fd.im.is_none() && recv.is_some());
+    rw.self_by_value = recv.as_ref().map(|r| r.reference.is_none()).unwrap_or(false) && !lifted;
     rw.lift_prefix = { let p = match ex.opt("key") { Some(k) => k.replace("::", "__").replace('@', "_"), None => ex.path.rsplit('@').next().unwrap().replace("::", "__") }; let p: String = p.chars().map(|c| if c.is_ascii_alphanumeric() || c == '_' { c } else { '_' }).collect(); if lifted { format!("{}__async", p) } else { p } };
     rw.typed_ctors = specs.sections.keys().filter_map(|k| k.strip_prefix("sig ").map(|s| s.to_string())).collect();
     rw.ctor_param_names = ctor_param_names_of(specs);
@@ -586,6 +587,8 @@ fn emit_fn(cx: &mut Ctx, specs: &mut Specs, em: &mut Emitter, ex: &Extract, file
     { let rt = ret_ty.as_ref().map(|t| nospace(&t.to_token_stream().to_string())).unwrap_or_default();
       let is_res = ["Result<", "DynResult<", "crate::error::Result<", "crate::DynResult<", "crate::Result<"].iter().any(|p| rt.starts_with(p));
       if is_res { if let Some(syn::Stmt::Expr(syn::Expr::MethodCall(m), None)) = block.stmts.last_mut() { let n = m.method.to_string(); if (n == "map" || n == "and_then") && m.args.len() == 1 { m.method = syn::Ident::new(&format!("{}__hxres", n), m.method.span()); } } } }
+    // G7 (unit directive `nohold`): a strong handle from an upgrade that is still in scope at a sleep
+    { let rules = rw.cx.unit.nohold.clone(); for (ups, sleeps, marker) in rules { if rewrite::mark_held_across(&mut block, &ups, &sleeps, &marker) > 0 { rw.cx.fire("G7"); } } }
     rw.visit_block_mut(&mut block);
     let nloops = rw.loops;
     let g6_sites = rw.g6_sites;
